@@ -107,7 +107,22 @@ def data_prog(k, op):
     return ("make a get [1]\nmake i get 0\njasi (i small pass %d) start\n a get [a]\n i get i add 1\nend\n%s\n" % (k, op))
 
 
+# The same, built 41 levels at a time by assigning the value into itself through an index chain
+# (`a[0]…[0] get a`): the copying is 41 times cheaper per level, so the stack limit is reached before
+# the arena is full (shape found by an independent mutation engineer on the unchanged tree).
+CHAIN = 41
+
+
+def data_prog_chain(k, op):
+    lit = "[" * CHAIN + "1" + "]" * CHAIN
+    return ("make a get %s\nmake i get 0\njasi (i small pass %d) start\n a%s get a\n i get i add 1\nend\nshout(\"built\")\n%s\n"
+            % (lit, max(1, k // CHAIN), "[0]" * CHAIN, op))
+
+
 DATA = {
+    "datachain-build": (lambda k: data_prog_chain(k, ""), [["Value_clone_into"], ["Value_promote"]]),
+    "datachain-print": (lambda k: data_prog_chain(k, "make s get to_string(a)\nshout(s.len())"), [["Value_fmt"], ["Value_clone_into"], ["Value_promote"]]),
+    "datachain-join": (lambda k: data_prog_chain(k, "shout(a.join(\",\").len())"), [["ArrayBuiltin_join"], ["Value_clone_into"]]),
     "data-print": (lambda k: data_prog(k, "shout(a)"), [["Value_fmt"], ["Value_clone_into"], ["Value_promote"]]),
     "data-copy": (lambda k: data_prog(k, "make b get a\nshout(b[0][0].len())"), [["Value_clone_into"], ["Value_promote"]]),
     "data-join": (lambda k: data_prog(k, "shout(a.join(\",\").len())"), [["ArrayBuiltin_join"], ["Value_clone_into"]]),
@@ -400,12 +415,13 @@ def correspond(env, searching=False, model=True):
     #         the recursion is shown to be unguarded under a 1 MiB stack
     data_obs = {}
     dks = [500, 1000, 2000, 3000, 3500] if not thorough else [500, 1000, 1500, 2000, 2500, 3000, 3300, 3600, 4000]
+    cks = [2000, 6000, 10000, 14000, 18000, 24000] if not thorough else [2000, 4000, 6000, 8000, 10000, 12000, 14000, 16000, 18000, 20000, 24000, 30000, 40000]
     jobs = [(n, rel, kb) for n in DATA for rel in profiles for kb in (STACK_KB, 1024)]
 
     def data_job(j):
         n, rel, kb = j
         trail = []
-        for k in dks:
+        for k in (cks if n.startswith("datachain") else dks):
             kind, det = run_naija(env, DATA[n][0](k), rel, stack_kb=kb, tag=n)
             trail.append((k, kind, det))
             if kind in ("crash", "alloc-abort", "timeout"):
@@ -419,7 +435,7 @@ def correspond(env, searching=False, model=True):
         if last[1] == "crash":
             nontrivial.add(common.chash("%s/%s/%d/%d" % (n, pname(rel), kb, last[0])))
         if kb == STACK_KB and last[1] == "crash":
-            failures.append({"key": n, "case": {"shape": n, "k": last[0], "profile": pname(rel)},
+            failures.append({"key": "%s@%s" % (n, pname(rel)), "case": {"shape": n, "k": last[0], "profile": pname(rel)},
                              "observed": "native stack overflow in a value operation on data nested %d deep: %s" % (last[0], last[2])})
     for n in DATA:
         small = [v for kk, v in data_obs[n].items() if kk.endswith("@1024KiB")]
